@@ -25,6 +25,7 @@ UnmarshalOK(e) ==
   IN /\ e.ok = good /\ e.cok = good
      /\ e.nok = len32
      /\ e.after = (IF good THEN EncodePointP(d[2], Certs(e)) ELSE IdStr)
+     /\ LET Rc == PtOf(e.rcv) IN ExtValid(Rc) /\ (IF good THEN ExtEq(Rc, d[2]) ELSE ExtIsId(Rc))     \* all four coordinates consistent
      /\ e.cafter = (IF good THEN e.in ELSE IdStr)
 PredsOK(e) ==
   LET Q == PtOf(e) IN
